@@ -6,6 +6,7 @@ structure St where
   now : Int := 0
   stores : List (String × KV) := []
   cursors : List (String × Nat) := []
+  held : List Nat := []       -- lengths of the values handed out so far (alias stream)
 
 def St.store (s : St) (id : String) : KV := (s.stores.lookup id).getD (KV.empty 0 0)
 def St.setStore (s : St) (id : String) (k : KV) : St :=
@@ -88,6 +89,27 @@ def kvStep (s : St) (op : String) (a : List String) : Option (St × String) :=
     let s' := { s.setStore id k' with cursors := (id, next) :: s.cursors.filter (·.1 ≠ id) }
     some (s', " ".intercalate (toString next :: ys.map (fun r => hx r.key)))
   | "dump" => some (s, dumpStore k)
+  | "hold" =>
+    let (r, k') := k.get (nat (arg 1)) s.now
+    match r with
+    | none => some (s.setStore id k', "nf")
+    | some r => some ({ s.setStore id k' with held := s.held ++ [r.val.length] }, fmtRec r)
+  | "holdpage" =>
+    let cursor := if arg 1 == "@" then (s.cursors.lookup id).getD 0 else nat (arg 1)
+    let (next, ys, k') := k.scan cursor (nat (arg 2)) (fun _ => true) s.now
+    let s' := { s.setStore id k' with cursors := (id, next) :: s.cursors.filter (·.1 ≠ id),
+                                       held := s.held ++ ys.map (·.val.length) }
+    some (s', " ".intercalate (toString next :: ys.map (fun r => hx r.key)))
+  | "heldcheck" => some (s, s!"ok {s.held.length}")    -- a handed-out value never changes (C18_snapshot)
+  | "poke" =>
+    match s.held[nat (arg 0)]? with
+    | none => some (s, "none")
+    | some 0 => some (s, "empty")
+    | some _ => some (s, "poked")                        -- and the store is untouched (C18_poke_private)
+  | "putbuf" =>
+    let r : Rec := { key := unhx (arg 2), val := unhx (arg 3), ttl := int (arg 4), ts := int (arg 5), la := 0 }
+    let (k', res) := k.put (nat (arg 1)) r s.now
+    some (s.setStore id k', fmtRes res)
   | _ => none
 
 end Driver
